@@ -492,7 +492,13 @@ fn run(tier: Tier, shard: usize, n: usize) -> Report {
 	let sc = uni::Scratch::new("c17");
 	rep.extra.insert("max_preemption_bound_completed".into(), json!(tier.pick(1, 2)));
 	let mut trees: std::collections::HashMap<&'static str, Arc<Tree>> = Default::default();
+	let only = std::env::var("GV_C17_ONLY").ok();
 	for h in harnesses(tier) {
+		if let Some(o) = &only {
+			if !h.name.starts_with(o.as_str()) {
+				continue;
+			}
+		}
 		if !trees.contains_key(h.universe) {
 			trees.insert(h.universe, Arc::new(universe(&sc, h.universe)));
 		}
